@@ -288,7 +288,7 @@ def build(sc):
 def _trace_home():
     """Environment._export_trace writes ~/Downloads/<name>_trace.json: give every worker process its own scratch home"""
     import os
-    h = os.path.join(common.VERIF, 'work', 'home', str(os.getpid()))
+    h = os.path.join(os.environ.get('VERIF_HOME_ROOT') or os.path.join(common.VERIF, 'work', 'home', 'adhoc'), str(os.getpid()))
     os.makedirs(os.path.join(h, 'Downloads'), exist_ok=True)
     os.environ['HOME'] = h
     return h
